@@ -30,13 +30,18 @@ def source_hashes(dotted_names):
 
 
 def write(prop, tier, seed, level, coverage, assumptions, wall_s, violations):
-    os.makedirs(os.path.join(ROOT, 'evidence'), exist_ok=True)
+    # evidence describes checks of /repo itself; a run against a scratch copy (VERIF_REPO, used for
+    # seeded changes and trial fixes) must not overwrite it
+    evdir = os.path.join(ROOT, 'evidence')
+    if os.path.realpath(os.environ.get('VERIF_REPO', '/repo')) != '/repo' or os.environ.get('VERIF_ONLY') or os.environ.get('VERIF_PARTIAL'):
+        evdir = os.path.join(ROOT, 'build', 'evidence_scratch')
+    os.makedirs(evdir, exist_ok=True)
     doc = {
         'property_id': prop, 'tier': tier, 'seed': int(seed), 'level': level,
         'coverage': coverage, 'assumptions': assumptions, 'wall_s': round(float(wall_s), 2),
         'violations': int(violations),
     }
-    path = os.path.join(ROOT, 'evidence', f'{prop}.json')
+    path = os.path.join(evdir, f'{prop}.json')
     tmp = path + '.tmp'
     with open(tmp, 'w') as f:
         json.dump(doc, f, indent=1, default=str)
